@@ -218,11 +218,11 @@ func (p *Program) PkgOf(fn *ssa.Function) string {
 func (p *Program) Func(pkg *ssa.Package, name string) *ssa.Function {
 	if p.Canon != nil {
 		if f, ok := p.Canon.funcByName[pkg.Pkg.Path()+".."+name]; ok {
-			return p.SSA.FuncValue(f)
+			return an.Follow(p.SSA.FuncValue(f))
 		}
 		return nil
 	}
-	return pkg.Func(name)
+	return an.Follow(pkg.Func(name))
 }
 
 // Method returns the method typ.name declared in pkg (pointer or value
@@ -230,7 +230,7 @@ func (p *Program) Func(pkg *ssa.Package, name string) *ssa.Function {
 func (p *Program) Method(pkg *ssa.Package, typ, name string) *ssa.Function {
 	if p.Canon != nil {
 		if f, ok := p.Canon.funcByName[pkg.Pkg.Path()+"."+typ+"."+name]; ok {
-			return p.SSA.FuncValue(f)
+			return an.Follow(p.SSA.FuncValue(f))
 		}
 		return nil
 	}
